@@ -24,6 +24,7 @@ CFG = {
                 "set_mref": 0.8, "del_mref": 0.4, "eval": 0.8, "bad": 2.0, "rename_space": 0.0},
     "cross_names": 0.2,
     "enum_always": ("new_cells", "new_space", "set_ref", "rename_cells", "add_bases"),   # every edit that can bring two members of one name together
+    "clash_wide": True,     # name-clash histories: several sub spaces per base, re-deriving edits after every request
 }
 RULE = ("random histories (12-26 ops) of member creation/deletion/renaming and base changes over a small shared "
         "name alphabet (cells names, reference names and child-space names overlap on purpose through the malformed "
@@ -146,10 +147,103 @@ class H(S.Hooks):
                          S.hist_json(ops))
 
 
+# ----------------------------------------------------------------------------- scenario family: clashes below the edited space
+#
+# A name clash need not arise in the space an edit is applied to: members travel down the whole
+# inheritance graph, so every edit that gives a space a new member (or a new base) can bring two kinds of
+# member together in a sub space, or a sub space of a sub space, of the edited space.  The family
+# enumerates (kind the lower space uses the name for) x (kind that arrives from above) x (how it
+# arrives) x (how far below the clash is) x (a model-level reference of that name exists or not).
+# The oracle is the property itself (class H): after every operation the containers of every space
+# are pairwise disjoint and the three views of the namespace agree - so the arriving edit has to be
+# refused, or at least must not leave a name in two containers.
+
+KINDS = ("cells", "ref", "space")
+
+
+def _member(kind, space, name, k=1):
+    if kind == "cells":
+        return ["new_cells", space, name, S.F(0, k)]
+    if kind == "ref":
+        return ["set_ref", space, name, 3 + k]
+    return ["new_space", space, name, []]
+
+
+def clash_family():
+    """[(label, ops)]: A is the space that gets the new member/base, B derives from A, C from B"""
+    out = []
+    x = "x"
+    for target in ("B", "C"):
+        for k1 in KINDS:
+            for k2 in KINDS:
+                if k1 == k2:
+                    continue
+                for glob in (0, 1):
+                    pre = [["set_mref", x, 10]] if glob else []
+                    chain = [["new_space", "-", "A", []], ["new_space", "-", "B", ["A"]], ["new_space", "-", "C", ["B"]]]
+                    have = chain + [_member(k1, target, x)]
+                    arrivals = {
+                        # a base that defines the name is added to the top of the chain
+                        "add_bases": [["new_space", "-", "D", []], _member(k2, "D", x, 2), ["add_bases", "A", ["D"]]],
+                        # ... a base that only derives it
+                        "add_bases-derived": [["new_space", "-", "E", []], _member(k2, "E", x, 2),
+                                              ["new_space", "-", "D", ["E"]], ["add_bases", "A", ["D"]]],
+                        # ... two bases at once, the second one has it
+                        "add_bases-two": [["new_space", "-", "E", []], ["new_space", "-", "D", []],
+                                          _member(k2, "D", x, 2), ["add_bases", "A", ["E", "D"]]],
+                        # the base is added in the middle of the chain
+                        "add_bases-mid": [["new_space", "-", "D", []], _member(k2, "D", x, 2), ["add_bases", "B", ["D"]]],
+                        # the member is created in the top space
+                        "create": [_member(k2, "A", x, 2)],
+                        # ... in a base the top space already has
+                        "create-in-base": [["new_space", "-", "D", []], ["add_bases", "A", ["D"]], _member(k2, "D", x, 2)],
+                        # a new space would derive the name from two of its bases as two kinds
+                        "new_space-bases": [["new_space", "-", "D", []], _member(k2, "D", x, 2),
+                                            ["new_space", "-", "N", [target, "D"]], ["new_space", "-", "N2", ["D", target]]],
+                    }
+                    if k2 == "cells":
+                        arrivals["rename"] = [["new_cells", "A", "q", S.F(0, 2)], ["rename_cells", "A", "q", x]]
+                        arrivals["rename-in-base"] = [["new_space", "-", "D", []], ["new_cells", "D", "q", S.F(0, 2)],
+                                                      ["add_bases", "A", ["D"]], ["rename_cells", "D", "q", x]]
+                    for how, ops in arrivals.items():
+                        out.append(("%s in %s, %s arrives by %s%s" % (k1, target, k2, how, ", model-level too" if glob else ""),
+                                    [list(o) for o in pre + have + ops]))
+    return out
+
+
 def run(ctx, out):
-    S.run_struct(ctx, out, "C12", CFG, H, 80, 1500, RULE + (
+    stats = S.run_struct(ctx, out, "C12", CFG, H, 80, 1500, RULE + (
         "; plus name-clash histories (struct_props.gen_clash): cells, references, child spaces, model-level references "
         "and top-level spaces all named from one alphabet of four names"), clash=(40, 800))
+    fam = clash_family()
+    refused = 0
+    for label, ops in fam:
+        sub = core.Outcome()
+        st = collections.Counter()
+        S.run_one(ops, sub, st, H(), CFG)
+        S.merge(out, sub)
+        refused += bool(sum(v for k, v in st.items() if k.startswith("rejected:")))
+        stats["clash_family_scenarios"] += 1
+        if len([f for f in out.failures if not f.get("key")]) >= 6:
+            break
+    stats["clash_family_refused"] = refused
+    out.coverage["evaluations"] += len(fam)
+    fam2 = S.refusal_family()
+    refused2 = S.run_family(out, stats, fam2, H, CFG, "refusal_family")
+    out.coverage["evaluations"] += len(fam2)
+    out.coverage["input_distribution"] = dict(stats)
+    out.coverage["rule"] += ("; plus the clash family: %d programs = (kind a sub space / sub-sub space uses a name for) x "
+                             "(other kind arriving from above) x (add_bases of a definer / of a deriver / of two bases / "
+                             "in mid-chain, creation in the top space / in an existing base, rename, new_space with both as "
+                             "bases) x (model-level reference of the name or not); %d of them contain a refused edit"
+                             % (len(fam), refused))
+    out.coverage["rule"] += ("; plus the refusal family (struct_props.refusal_family): %d programs = (a base with two or "
+                             "three sibling sub spaces / a chain / a diamond) x (which sub space uses the name, as cells / "
+                             "child space / reference) x (model-level reference of the name: none / created before / "
+                             "created AFTER the member) x (an earlier sub space overrides the name or not) x (other kind "
+                             "arriving in the base by creation or rename), each followed by edits of the base that only "
+                             "re-derive its sub spaces, the request again and more re-derivation; %d contain a refused edit"
+                             % (len(fam2), refused2))
 
 
 def replay(ctx, payload, out):
